@@ -152,21 +152,23 @@ def check_panel_fields(led, replay=None):
 def check_assembly_fields(led):
     from .py_assembly import make_assembly, offsets
     it, calls = py_panel.mk()
-    for method, opts in (('uvw', {}), ('strain', {'NLterms': True}), ('strain', {'NLterms': False}), ('stress', {'NLterms': True}), ('stress', {'NLterms': False})):
+    layouts = [(('skin', 'skin', 'other'), 'skin'), (('other', 'skin', 'skin'), 'skin'), (('skin', 'other', 'skin'), 'skin'), (('other', 'skin', 'other'), 'other')]
+    for (method, opts), (groups, asked) in itertools.product((('uvw', {}), ('strain', {'NLterms': True}), ('strain', {'NLterms': False}), ('stress', {'NLterms': True}), ('stress', {'NLterms': False})), layouts):
         func = AF + method
         led.function(func)
-        tag = ','.join('%s=%s' % kv for kv in sorted(opts.items())) or 'default'
+        tag = (','.join('%s=%s' % kv for kv in sorted(opts.items())) or 'default') + ',groups=%s,asked=%s' % ('/'.join(groups), asked)
+        members = [k for k, g_ in enumerate(groups) if g_ == asked]
 
         def run():
             del calls[:]
             asm, panels, meta, conn = make_assembly(it, ['plate', 'cpanel', 'plate'])
-            for p, grp in zip(panels, ('skin', 'skin', 'other')):
+            for p, grp in zip(panels, groups):
                 it.call(it.getattr(p, 'calc_k0'), [], dict(silent=True))
                 p.attrs['group'] = grp
             del calls[:]
             offs, tot = offsets(meta)
             c = InArray('c', shape=(tot,))
-            r = it.call(it.getattr(asm, method), [c, 'skin'], dict(gridx=2, gridy=3, **opts))
+            r = it.call(it.getattr(asm, method), [c, asked], dict(gridx=2, gridy=3, **opts))
             return asm, panels, meta, r, list(calls)
         for path, out in it.explore(run):
             name = '%s[%s]' % (func, tag)
@@ -177,9 +179,9 @@ def check_assembly_fields(led):
             offs, tot = offsets(meta)
             probs = []
             fc = [c_ for c_ in cl if isinstance(c_, Opaque) and c_.kind == 'field-call']
-            if len(fc) != 2:
-                probs.append('%d field-kernel calls, expected one per panel of the group (2)' % len(fc))
-            for k, call in enumerate(fc[:2]):
+            if len(fc) != len(members):
+                probs.append('%d field-kernel calls, expected one per panel of the group (%d)' % (len(fc), len(members)))
+            for pos, (k, call) in enumerate(zip(members, fc)):
                 kw, want, g = meta[k]
                 lo, hi = offs[k], offs[k] + 3 * kw['m'] * kw['n']
                 wantc = 'c[%s:%s]' % (normal(lo).text(), normal(hi).text())
@@ -198,10 +200,10 @@ def check_assembly_fields(led):
                     keys = {'uvw': ('u', 'v', 'w', 'phix', 'phiy'), 'strain': STRAINS, 'stress': RESULTANTS}[method]
                     for ki, key in enumerate(keys):
                         lst = r.get(key)
-                        if not isinstance(lst, list) or len(lst) != 2:
+                        if not isinstance(lst, list) or len(lst) != len(members):
                             probs.append('result[%s] has %s entries, expected one per panel of the group' % (key, len(lst) if isinstance(lst, list) else 'no'))
                             continue
-                        arr = lst[k]
+                        arr = lst[pos]
                         nl = None if method == 'uvw' else ('1' if opts.get('NLterms') else '0')
                         if method in ('uvw', 'strain'):
                             cmp_array('%s(panel %d)' % (key, k + 1), arr, key, wantc, pk, X, Y, nl, probs)
